@@ -517,9 +517,13 @@ def _plume_particle_specs(rng, kind, comp, rich, nmax=3):
     return out
 
 
-def bpm_spec(rng, rich=True, kind=None, ntracers=None, track=None, current=None):
+UNSORTED_COMPS = [['methane', 'ethane'], ['methane', 'ethane', 'propane'], ['propane', 'methane'],
+                  ['oxygen', 'nitrogen', 'carbon_dioxide'], ['methane', 'carbon_dioxide']]
+
+
+def bpm_spec(rng, rich=True, kind=None, ntracers=None, track=None, current=None, unsorted=False):
     kind = kind or rng.choice(['soluble', 'inert', 'mixed'])
-    comp = rng.choice(COMPS[:5])
+    comp = rng.choice(UNSORTED_COMPS if unsorted else COMPS[:5] + UNSORTED_COMPS[2:])
     ntr = rng.randint(0, 3) if ntracers is None else ntracers
     s = {'model': 'bpm', 'kind': kind, 'composition': comp, 'particles': _plume_particle_specs(rng, kind, comp, rich),
          'z0': rng.uniform(200., 380.), 'D': rng.uniform(0.1, 0.4), 'Vj': rng.choice([0., rng.uniform(0.2, 2.)]),
@@ -552,9 +556,9 @@ def run_bpm(spec, prf):
     return m
 
 
-def spm_spec(rng, rich=True, kind=None):
+def spm_spec(rng, rich=True, kind=None, unsorted=False):
     kind = kind or rng.choice(['soluble', 'inert', 'mixed'])
-    comp = rng.choice(COMPS[:3])
+    comp = rng.choice(UNSORTED_COMPS[:3] if unsorted else COMPS[:3] + UNSORTED_COMPS[2:3])
     s = {'model': 'spm', 'kind': kind, 'composition': comp, 'particles': _plume_particle_specs(rng, kind, comp, rich, 2),
          'z0': rng.uniform(60., 110.), 'R': rng.uniform(0.05, 0.2), 'maxit': rng.choice([1, 2]), 'toler': 0.2,
          'delta_z': rng.choice([2., 4.])}
